@@ -11,7 +11,8 @@ COQ_CASE_TYPE = "case"
 COQ_AGREE = "agree"
 COQ_PROP_OK = "prop_ok"
 RULE = ("seeded configurations: time scale in {1/4,1/2,1,2,4}, interval and offset dyadic (offset sometimes >= interval), up to 25 ticks each with a loop overhead, a step "
-        "duration chosen below / exactly at / above the interval (in system time), and a pause of random real length at the loop guard before some ticks. "
+        "duration chosen below / exactly at / above the interval (in system time), and a pause of random real length at the loop guard before some ticks (half of them the pause of a state save: the clock's state is exported in the middle). "
+        "Step starts are taken from the library's clock and from the reference system time kept by the harness. "
         "Non-trivial = contains a step shorter than, one longer than the interval, and a pause; distinct = canonical JSON.")
 TRUSTED = [
     "Coq 8.16.1 kernel incl. vm_compute",
@@ -47,7 +48,7 @@ def gen_one(rng):
             d = target * Fraction(rng.randint(5, 12), 4) + Fraction(rng.randint(0, 8), 256)
         d = Fraction(int(d * 4096), 4096)
         p = [0, 1] if rng.random() < 0.7 else [rng.randint(1, 5000), rng.choice([1, 16, 1024])]
-        ticks.append({"pause": p, "eps": eps, "dur": [d.numerator, d.denominator]})
+        ticks.append({"pause": p, "eps": eps, "dur": [d.numerator, d.denominator], "save": p[0] > 0 and rng.random() < 0.5})
     # setting up the components takes real time too (none, short, longer than one interval)
     setup = rng.choice([[0, 1], [0, 1], [1, 64], [rng.randint(1, 200), 64]])
     return {"k": k, "interval": interval, "offset": offset, "ticks": ticks, "setup_dur": setup}
@@ -75,7 +76,10 @@ def coq_input(case, obs):
 
 
 def coq_case(case, obs):
-    return f"({coq_input(case, obs)}, {cl(_q(s) for s in obs['starts'])})"
+    # the step starts as the library's clock reports them, and as the reference system time (scale x raw un-paused time,
+    # kept by the harness) reports them: the pacing must hold for both
+    return [f"({coq_input(case, obs)}, {cl(_q(s) for s in obs['starts'])})",
+            f"({coq_input(case, obs)}, {cl(_q(s) for s in obs['ref_starts'])})"]
 
 
 def coq_expected(case, obs):
